@@ -1029,11 +1029,39 @@ def classify(rc, err):
     return "other:" + (first[-1][:80] if first else "")
 
 
-def run_impl(impl_dir, p, impl_order=None):
+def run_impl(impl_dir, p, impl_order=None, retry=True):
     rc, o, e = common.run_cb(impl_dir, to_cb(p, impl_order), timeout=10)
-    if rc == 124:
+    if rc == 124 and retry:
         rc, o, e = common.run_cb(impl_dir, to_cb(p, impl_order), timeout=60)
     return [l for l in o.split("\n") if l != ""], classify(rc, e)
+
+
+MAX_TIMEOUTS = 24
+
+
+def run_impl_many(impl_dir, jobs):
+    """jobs: list of (program, impl_order). Every generated program ends within milliseconds on a healthy tree, so
+    a time-out is a hang of the implementation.  To keep the run bounded when a change makes MANY programs hang:
+    first pass with 10 s each, in chunks; once more than MAX_TIMEOUTS programs have timed out the remaining ones
+    are not run (result None: not evaluated, counted).  Up to MAX_TIMEOUTS time-outs are retried with 60 s (a
+    loaded machine); a program that times out again is a disagreement with the model like any other."""
+    res = [None] * len(jobs)
+    timed = []
+    CH = 320
+    for a in range(0, len(jobs), CH):
+        idx = list(range(a, min(a + CH, len(jobs))))
+        part = common.pmap(lambda k: run_impl(impl_dir, jobs[k][0], jobs[k][1], retry=False), idx)
+        for k, r in zip(idx, part):
+            res[k] = r
+            if r[1] == "timeout":
+                timed.append(k)
+        if len(timed) > MAX_TIMEOUTS:
+            break
+    if len(timed) <= MAX_TIMEOUTS:
+        again = common.pmap(lambda k: run_impl(impl_dir, jobs[k][0], jobs[k][1], retry=True), timed)
+        for k, r in zip(timed, again):
+            res[k] = r
+    return res
 
 
 def run_model(progs, orders=None):
@@ -1285,14 +1313,17 @@ def well_scoped(p):
     return True
 
 
-def shrink(p, bad, budget=400):
-    """greedy deletion of operations, helpers' calls, statements, impls, variables while `bad(p)` holds"""
+def shrink(p, bad, budget=400, seconds=60):
+    """greedy deletion of operations, helpers' calls, statements, impls, variables while `bad(p)` holds
+    (at most `budget` evaluations and `seconds` of wall time)"""
+    import time
     p = json.loads(json.dumps(p))
     n = [0]
+    t_end = time.time() + seconds
 
     def ok(q):
         n[0] += 1
-        if n[0] > budget or not well_scoped(q):
+        if n[0] > budget or time.time() > t_end or not well_scoped(q):
             return False
         try:
             return bad(q)
@@ -1499,7 +1530,10 @@ def run(rep):
     progs = [progs[k] for k in keep]
     origin = [origin[k] for k in keep]
     models = [models[k] for k in keep]
-    impls = common.pmap(lambda p: run_impl(impl, p), progs)
+    impls = run_impl_many(impl, [(p, None) for p in progs])
+    not_run = sum(1 for i in impls if i is None)
+    if not_run:
+        rep.notes.append("%d programs not run: more than %d programs hang on this tree (time-outs are reported as disagreements)" % (not_run, MAX_TIMEOUTS))
 
     # registration-order independence: the same programs with their impl blocks permuted
     perm_idx = [k for k in range(len(progs)) if len(progs[k]["impls"]) >= 2 and
@@ -1511,7 +1545,9 @@ def run(rep):
         while od == list(range(len(od))):
             rng.shuffle(od)
         orders.append(od)
-    perm_impl = common.pmap(lambda a: run_impl(impl, progs[a[0]], a[1]), list(zip(perm_idx, orders)))
+    if not_run:
+        perm_idx, orders = [], []          # the tree hangs: the order-independence re-runs are skipped
+    perm_impl = run_impl_many(impl, [(progs[k], od) for k, od in zip(perm_idx, orders)])
     perm_model = run_model([progs[k] for k in perm_idx], orders)
 
     hist, feats = {}, {}
@@ -1528,15 +1564,15 @@ def run(rep):
         # non-trivial: at least one dispatched call printed something or the program is rejected
         if len(m[0]) > 0 or m[1] != "ok":
             nontrivial += 1
-    bad = [(k, "corr") for k in range(len(progs)) if not agree(models[k], impls[k])]
+    bad = [(k, "corr") for k in range(len(progs)) if impls[k] is not None and not agree(models[k], impls[k])]
     badp = []
     for j, k in enumerate(perm_idx):
         if perm_model[j] != models[k]:
             continue        # rejected programs may name another first error in another order (the model does too)
-        if perm_impl[j] != impls[k]:
+        if perm_impl[j] is not None and impls[k] is not None and perm_impl[j] != impls[k]:
             badp.append(j)  # same program, same model answer, main prints something else: order dependence
     rep.coverage.update({
-        "evaluations": len(progs) + len(perm_idx), "distinct_nontrivial": nontrivial,
+        "evaluations": len(progs) - not_run + len(perm_idx), "distinct_nontrivial": nontrivial, "not_run_after_timeouts": not_run,
         "rule": "generated Cb program run on main (stdout lines + error class) vs the extracted Coq model on the same program; "
                 "distinct = distinct serialised programs; non-trivial = prints at least one line or is rejected",
         "input_distribution": hist, "feature_histogram": feats,
@@ -1560,7 +1596,7 @@ def run(rep):
         (m,) = run_model([q])
         if m[1] in OUTSIDE:
             return False
-        i = run_impl(impl, q)
+        i = run_impl(impl, q, retry=False)
         return (not agree(m, i)) and (not need_concrete or contradicts_spec(q, i))
     # disagreements on which main also contradicts the property's own oracle first, then the shortest
     bad.sort(key=lambda b: (not contradicts_spec(progs[b[0]], impls[b[0]]), len(progs[b[0]]["ops"])))
@@ -1568,7 +1604,9 @@ def run(rep):
         c0 = contradicts_spec(progs[k], impls[k])
         q = shrink(progs[k], lambda q2: bad_fn(q2, c0))
         (m,) = run_model([q])
-        i = run_impl(impl, q)
+        i = run_impl(impl, q, retry=False)
+        if agree(m, i):                 # (a time-out that does not repeat: keep the unshrunk program)
+            q, m, i = progs[k], models[k], impls[k]
         s = spec_run(q)
         concrete = contradicts_spec(q, i)
         firstdiff = next((("line %d: model %r / main %r" % (n + 1, a, b)) for n, (a, b) in
